@@ -493,7 +493,7 @@ func execBig(in string) string {
 		return "?"
 	}
 	var out string
-	if g := tr.Guard(60*time.Second, func() { out = strings.Join(runBig(limit, mode, ms, nil), ";") }); g != "" {
+	if g := guard(30*time.Second, func() { out = strings.Join(runBig(limit, mode, ms, nil), ";") }); g != "" {
 		return g
 	}
 	return out
@@ -838,7 +838,7 @@ func (b *builder) middle(lo, n int, vs vseq, which int) {
 func (b *builder) emit(g *tr.G, label string) {
 	in := fmt.Sprintf("B %d %s %s", b.limit, b.mode, macrosString(b.ms))
 	var st bigStats
-	if hung := tr.Guard(60*time.Second, func() { memoOut = strings.Join(runBig(b.limit, b.mode, b.ms, &st), ";") }); hung != "" {
+	if hung := guard(30*time.Second, func() { memoOut = strings.Join(runBig(b.limit, b.mode, b.ms, &st), ";") }); hung != "" {
 		memoOut = hung
 	}
 	memoIn = in
